@@ -276,6 +276,8 @@ func checkC09(w *World, r *Report) {
 	r.Rule("R09.3n", 2, "the closed marker the insertion sites re-check (table == nil) is established on every path of Close past the gate")
 	r.Try(func() { ruleClosedMarkerOnAllPaths(w, r, "R09.3n") })
 	r.Try(func() { ruleAtomicRMW(w, r, "R09.5", la) })
+	r.Rule("R09.5", 1, "a slice whose header is handed out of its critical section (snapshot idiom) never has an element overwritten in place")
+	r.Try(func() { ruleNoWriteUnderEscapedHeader(w, r, "R09.5", la) })
 	r.Try(func() { checkGoStatements(w, r) })
 }
 
